@@ -410,6 +410,15 @@ SPECS["C16"] = dict(
         "Woodpile.Props.C16.whole_item_lawful_of_distinct_keys",
         "Woodpile.Props.C16.whole_item_needs_distinct_keys",
         "Woodpile.Props.C16.pair_run_refines",
+        # track misc2 (claim-audit gap 17): persistence of removals, sortedness from any state, whole-item run level
+        "Woodpile.Props.C16.reference_sorted_from",
+        "Woodpile.Props.C16.reachable_sorted",
+        "Woodpile.Props.C16.gone_stays_gone",
+        "Woodpile.Props.C16.removed_or_popped_vanishes",
+        "Woodpile.Props.C16.gone_stays_gone_increasing",
+        "Woodpile.Props.C16.gone_stays_gone_impl",
+        "Woodpile.Props.C16.whole_run_refines",
+        "Woodpile.Props.C16.whole_run_refines_of_keyed_values",
     ],
     families=[dict(name="sorted", quick=4000, thorough=200000)],
     technique="Lean 4 proof (ghost-list representation invariant, correctness of the modelled std binary search on sorted "
